@@ -181,7 +181,7 @@ public:
 	using typename Base::Transition;
 
 private:
-#if FFSM2_TRANSITION_HISTORY_AVAILABLE()
+#if FFSM2_TRANSITION_HISTORY_AVAILABLE() && !FFSM2_SERIALIZATION_AVAILABLE()
 	using typename Base::PlanControl;
 #endif
 
